@@ -1,11 +1,16 @@
 import OapiVerif.Model.JsonObj
+import OapiVerif.Proofs.GoJson
 /-!
 C07 — Generated models round-trip JSON without loss.
 
-Model: Model/JsonObj.lean — the additional-properties template on one object with opaque members. Tie (harness
-c07): RUN — seeded schemas compiled (models only), schema-directed valid instances incl. boundary values decoded
-into the generated types and encoded again, semantic JSON equality. encoding/json itself (struct tags,
-omitempty, pointers, maps, slices) is exercised by RUN only.
+Models: Model/GoJson.lean — the fragment of encoding/json the generated types rely on (struct fields with json
+names and omitempty, pointers, slices, string-keyed maps, booleans, integers, strings), with `decode`/`encode`
+and the validity predicate; Model/JsonObj.lean — the additional-properties template on one object with opaque
+members. Ties (harness c07): CORR — `json.Unmarshal`/`json.Marshal` on Go types built with reflect from seeded
+type descriptions against `decode`/`encode` on seeded JSON values (valid, canonical and not, and junk);
+RUN — seeded schemas compiled (models only), schema-directed valid instances incl. boundary values decoded into
+the generated types and encoded again, semantic JSON equality. Floats, the custom (un)marshallers of unions and
+the format types (Date, UUID, …) are RUN only.
 -/
 namespace OapiVerif.JsonObj
 variable {V : Type}
@@ -203,3 +208,41 @@ theorem C07_set_can_shadow (zero v w : V) (f : Field) :
 example : lookup (encode 0 [⟨"a", false⟩, ⟨"b", true⟩] (decode [⟨"a", false⟩, ⟨"b", true⟩] [("x", 7), ("a", 1)])) "x" = some 7 := by decide
 
 end OapiVerif.JsonObj
+
+namespace OapiVerif.GoJson
+
+/-- Every JSON value that a well-formed Go type represents exactly (see `valid`) decodes into the type and
+encodes back to itself: nothing lost, invented or changed, at any nesting depth of structs, pointers, slices
+and maps. -/
+theorem C07_json_roundtrip (t : GoTy) (j : JVal) (hw : wf t = true) (hv : valid t j = true) :
+    ∃ v, decode t j = some v ∧ encode t v = some j := roundtrip t j hw hv
+
+/-- The generator's member rules (C08) make `valid` the natural notion: an optional member is a pointer with
+omitempty, and any non-null value of it is kept on the way back. -/
+theorem C07_optional_member_kept (t : GoTy) (j : JVal) (hj : j ≠ .null) : keptByOmitempty (.ptr t) j = true := by
+  cases j <;> simp_all [keptByOmitempty]
+
+/-- The documented difference: an absent optional nullable member (a pointer without omitempty) reappears as null. -/
+theorem C07_absent_nullable_reappears_as_null (n : String) (t : GoTy) :
+    (decode (.struct (.cons n false (.ptr t) .nil)) (.obj [])).bind (encode (.struct (.cons n false (.ptr t) .nil))) =
+      some (.obj [(n, .null)]) := by
+  simp [decode, decodeFields, lookup, zero, encode, encodeFields, isEmpty]
+
+/-- … and its converse, which is not among the permitted differences: an explicit null of an optional member
+(pointer with omitempty) is dropped (recorded in known-findings.txt for the default configuration). -/
+theorem C07_explicit_null_dropped_witness :
+    (decode (.struct (.cons "a" true (.ptr .string) .nil)) (.obj [("a", .null)])).bind
+      (encode (.struct (.cons "a" true (.ptr .string) .nil))) = some (.obj []) := by
+  simp [decode, decodeFields, lookup, encode, encodeFields, isEmpty]
+
+/-- A non-pointer member under omitempty loses its zero value — why required members must not be tagged
+omitempty (the class of the seeded change on required read-only members). -/
+theorem C07_omitempty_value_lost_witness :
+    (decode (.struct (.cons "n" true .int .nil)) (.obj [("n", .num 0)])).bind
+      (encode (.struct (.cons "n" true .int .nil))) = some (.obj []) := by
+  simp [decode, decodeFields, lookup, encode, encodeFields, isEmpty]
+
+example : valid (.struct (.cons "id" false .int (.cons "tags" true (.ptr (.slice .string)) .nil)))
+    (.obj [("id", .num 7), ("tags", .arr [.str "a"])]) = true := by decide
+
+end OapiVerif.GoJson
